@@ -26,6 +26,8 @@ Verdict(r) ==
                    (IF r.obs.kind = TupleKind(r.n) THEN {} ELSE {"C12/tuple/wrong_kind"})
                    \cup (IF Len(r.obs.items) = r.n THEN {} ELSE {"C12/tuple/arity_changed"})
                    \cup (IF r.obs.same THEN {} ELSE {"C12/tuple/round_trip_differs"})
+                   \cup (IF r.obs.longer_refused THEN {} ELSE {"C12/tuple/longer_value_tuple_truncated"})
+                   \cup (IF r.obs.shorter_refused THEN {} ELSE {"C12/tuple/shorter_value_tuple_accepted"})
                    \cup (IF \A i \in DOMAIN r.obs.items : r.obs.items[i] = "Int(Some(" \o ToString(100 + i) \o "))" THEN {} ELSE {"C12/tuple/order_changed"})
               [] r.kind = "sweep" -> IF Len(r.bad) = 0 THEN {} ELSE {"C12/sweep/" \o r.ty \o "/payload_changed"},
    n |-> CASE r.kind = "cell" -> Len(r.obs) [] r.kind = "sweep" -> r.n [] OTHER -> 1,
